@@ -57,10 +57,12 @@ type FuncV struct {
 type TupleV []Value
 
 type ChanV struct {
-	id     int
-	closed bool
-	buf    []Value
-	cap    int
+	id      int
+	closed  bool
+	buf     []Value
+	bufVC   []VC
+	closeVC VC
+	cap     int
 }
 
 // PoisonV is produced by lenient package initialisation for values the engine cannot compute;
